@@ -232,6 +232,10 @@ for _n in ("movehdup_ps", "moveldup_ps"):
     INTRIN["_mm256_" + _n] = ("Avx2." + _n, "v")
 for _n in ("castsi256_pd", "castpd_si256", "castsi256_ps", "castps_si256"):
     INTRIN["_mm256_" + _n] = (None, "v")   # bit casts: identity
+for _n in ("or_si256", "cmpeq_epi64", "cmpeq_epi32"):
+    INTRIN["_mm256_" + _n] = ("Avx2." + _n, "vv")
+INTRIN["_mm256_unpacklo_epi64"] = ("Avx2.unpacklo_pd", "vv")     # same lane movement as the _pd form
+INTRIN["_mm256_unpackhi_epi64"] = ("Avx2.unpackhi_pd", "vv")
 INTRIN["_mm256_set_epi64x"] = ("Avx2.set_epi64x", "vvvv")
 INTRIN["_mm256_set1_epi64x"] = ("Avx2.set1_epi64x", "v")
 INTRIN["_mm256_loadu_si256"] = ("Avx2.load", "m")
@@ -252,6 +256,10 @@ for _n in ("movehdup_ps", "moveldup_ps"):
     INTRIN["_mm512_" + _n] = ("Avx512." + _n, "v")
 for _n in ("castsi512_pd", "castpd_si512", "castsi512_ps", "castps_si512"):
     INTRIN["_mm512_" + _n] = (None, "v")
+for _n in ("or_si512", "andnot_si512"):
+    INTRIN["_mm512_" + _n] = ("Avx512." + _n, "vv")
+INTRIN["_mm512_unpacklo_epi64"] = ("Avx512.unpacklo_pd", "vv")
+INTRIN["_mm512_unpackhi_epi64"] = ("Avx512.unpackhi_pd", "vv")
 INTRIN["_mm512_set_epi64"] = ("Avx512.set_epi64", "vvvvvvvv")
 INTRIN["_mm512_set4_epi64"] = ("Avx512.set4_epi64", "vvvv")
 INTRIN["_mm512_set1_epi64"] = ("Avx512.set1_epi64", "v")
